@@ -287,7 +287,28 @@ def count_rule(rep, u):
         for i in (0, 1, 2, 3):
             if key(strip_casts(c["args"][i])) != fn.params[i]["n"]:
                 bad.append("argument %d is %s, not the caller's %s" % (i, key(strip_casts(c["args"][i])), fn.params[i]["n"]))
-    incs = [x for _, _, x, _ in fn.nodes() if x.get("k") == "un" and "++" in x["op"]]
+    # the resume offset is handed back unchanged: apart from its initialisation the variable is written only by the call
+    if len(calls) == 1:
+        from rules.r_range import direct_writes_of
+        off_id = None
+        a4 = strip_casts(calls[0]["args"][4])
+        if a4.get("k") == "ref":
+            off_id = a4["id"]
+        def writes_off(x):
+            if x.get("k") == "bin" and x["op"].endswith("=") and x["op"] not in ("==", "!=", "<=", ">="):
+                l = strip_casts(x["x"])
+                return l.get("k") == "ref" and l.get("id") == off_id
+            if x.get("k") == "un" and ("++" in x["op"] or "--" in x["op"]):
+                l = strip_casts(x["e"])
+                return l.get("k") == "ref" and l.get("id") == off_id
+            return False
+        for pos, root, x, ps in fn.nodes():
+            if off_id is not None and writes_off(x):
+                bad.append("the resume offset '%s' is modified at line %s between two searches: the search no longer resumes at the CRLF "
+                           "the previous call stopped at (the next field line can be skipped or found twice)" % (a4["n"], x.get("ln")))
+                break
+    incs = [x for _, _, x, _ in fn.nodes() if x.get("k") == "un" and "++" in x["op"] and
+            not (len(calls) == 1 and key(strip_casts(x["e"])) == key(strip_casts(calls[0]["args"][4])))]
     loops = fn.loops()
     if len(incs) != 1 or not loops or not any(True for h, b in loops.items()):
         bad.append("expected exactly one increment inside the loop, found %d" % len(incs))
